@@ -205,6 +205,19 @@ package environment
 //@   on call delete when argtype0 == "map[uid.ID]*environment.Environment" : assert doneSet && !removed ; removed = true
 //@   ensures err == nil ==> removed && cancelledCalls
 //@   ensures !doneSet ==> err != nil && !removed
+//   C06: the second round releases ALL DESTROY hook tasks: what FilterTasks gives for every weight is appended to the
+//   release list before any status filter, and exactly that list is put into the second release request
+//@   ghostvar ft task.Tasks = nil
+//@   ghostvar nFT int = 0
+//@   ghostvar nApp int = 0
+//@   [C06] on aftercall (callable.Hooks).FilterTasks : ft = result ; nFT = nFT + 1
+//@   [C06] on call builtin.append when argname0 == "cleanupTaskHooksToRelease" : assert arg1 == ft && nApp + 1 == nFT ; nApp = nApp + 1
+//@   [C06] on call .TriggerHooks : assert nApp == nFT
+//@   [C06] on call task.NewEnvironmentMessage when sends == 1 && recvs == 1 : assert arg0 == taskop.ReleaseTasks && arg1 == environmentId && arg2 == cleanupTaskHooksToRelease && nApp == nFT
+//@   [C06] loop 2 invariant nApp == 0
+//@   [C06] loop 3 invariant nApp == 0
+//@   [C06] loop 4 invariant nApp == 0
+//@   [C06] loop 7 invariant nApp == nFT
 //   C10: teardown while RUNNING examines both end timestamps independently and sets each only if still empty
 //@   ghostvar sawEndGet bool = false
 //@   ghostvar sawCompGet bool = false
